@@ -72,6 +72,11 @@ ASSUMPTIONS = [
     "recipes in which any visited iterate is within 1e-6 relative of a threshold are discarded, so eager and "
     "compiled cannot legitimately take different decisions; the boundary_exact sub-check covers exact ties "
     "with dyadic data where every operation of the first iteration is exact in both variants",
+    "boundary_exact: the absdelta tie is probed with maxiter=1 only - the second iterate of these systems is the "
+    "exact solution and whether its residual is exactly zero (gamma <= tiny) or 1e-17 is decided by round-off "
+    "(observed: exactly zero in the eager, 1e-17 in the compiled variant)",
+    "not demanded because the statement is silent: CGResults.nfev, the iteration at which the residual is "
+    "re-synchronised (N_RESET), logging via name=, time_threshold (eager only)",
     "non-PD: matrices, right-hand sides and starts are small integers / dyadics, so the sign of the first "
     "curvature r0^H M r0 is known exactly; later curvatures are classified with a 1e-9 relative margin and "
     "maxiter is capped in front of an ambiguous or numerically unstable iteration",
